@@ -5,7 +5,6 @@ use serde::Serialize;
 use jbonsai::duration::DurationEstimator;
 use jbonsai::model::{MeanVari, Models};
 
-use crate::bundled::bundled_engine;
 use crate::corpus::{gen_label_lines, parse_lines};
 use crate::engine_util::trajectories;
 use crate::runner::{DynProp, Failure, Prop, Report, Tier};
@@ -146,6 +145,7 @@ impl Prop for SpeedLaw {
 
 #[derive(Debug, Clone, Serialize)]
 pub struct EngineCase {
+    pub voice: crate::engine_case::VoiceChoice,
     pub source: String,
     pub labels: Vec<String>,
     pub speed: f64,
@@ -159,30 +159,35 @@ impl Prop for EngineSpeed {
         "engine-speed".into()
     }
     fn rule(&self) -> String {
-        "bundled voice, 1..5 labels (corpus sources), speed log-uniform in [0.25,4] or a special value set through Condition::set_speed; frames of Engine::generator (hook trajectories) == max(round(F1/s), labels*states) with F1 from the public Models::duration(); synthesize length == frames x fperiod on a subset. Non-trivial: speed != 1".into()
+        "engine (generated voice 70 %, bundled / perturbed 30 %), 1..150 labels (corpus sources; long utterances so that round(F1/s) != F1 even for s close to 1), speed from {1 | 1 +- 1e-6..1e-2 | log-uniform [0.25,4] | special values} set through Condition::set_speed; frames of Engine::generator (hook trajectories) == max(round(F1/s), labels*states) with F1 from the public Models::duration(); synthesize length == frames x fperiod on short cases. Non-trivial: speed != 1".into()
     }
     fn tape_len(&self, _: Tier) -> usize {
-        400
+        12000
     }
     fn cases(&self, tier: Tier) -> u32 {
         tier.pick(3_000, 40_000)
     }
     fn decode(&self, t: &mut Tape, _: Tier) -> EngineCase {
-        let n = t.urange(1, 5);
-        let (labels, src) = gen_label_lines(t, n, false);
-        let speed = match t.weighted(&[1, 5, 2]) {
-            0 => 1.0,
-            1 => t.log_uniform(0.25, 4.0),
-            _ => *t.pick(&[0.25, 4.0, 0.5, 2.0, 1.4, 50.0, 1000.0]),
+        let n = match t.weighted(&[4, 3, 2]) {
+            0 => t.urange(1, 5),
+            1 => t.urange(6, 40),
+            _ => t.urange(41, 150),
         };
-        EngineCase { source: src.name().into(), labels, speed }
+        let (labels, src) = gen_label_lines(t, n, false);
+        let voice = crate::engine_case::gen_voice_choice(t, 30, crate::voice::GenOpts { max_depth: 2, ..Default::default() });
+        let speed = match t.weighted(&[1, 4, 4, 2]) {
+            0 => 1.0,
+            1 => {
+                let d = t.log_uniform(1e-6, 1e-2);
+                if t.chance(0.5) { 1.0 + d } else { 1.0 - d }
+            }
+            2 => t.log_uniform(0.25, 4.0),
+            _ => *t.pick(&[0.25, 4.0, 0.5, 2.0, 1.4, 50.0, 1000.0, 0.999, 1.001]),
+        };
+        EngineCase { voice, source: src.name().into(), labels, speed }
     }
     fn check(&self, c: &EngineCase) -> Result<Report, Failure> {
-        let base = match bundled_engine() {
-            Ok(e) => e,
-            Err(e) => fail!("bundled-load", "{}", e),
-        };
-        let mut engine = base.clone();
+        let (mut engine, _info) = crate::engine_case::build_engine(&c.voice)?;
         engine.condition.set_speed(c.speed);
         let labels = match parse_lines(&c.labels) {
             Ok(l) => l,
@@ -193,6 +198,9 @@ impl Prop for EngineSpeed {
         let nstates = labels.len() * models.nstate();
         ensure!(dur.len() == nstates, "duration-len", "{} duration Gaussians for {} states", dur.len(), nstates);
         let f1: f64 = dur.iter().map(|MeanVari(m, _)| m.round().max(1.0)).sum();
+        if f1 / c.speed > 20_000.0 {
+            return Ok(Report::rejected("too-long"));
+        }
         let (lo, hi) = if c.speed == 1.0 { (f1, f1) } else { round_candidates(f1 / c.speed, 1e-9) };
         let g = match engine.generator(c.labels.as_slice()) {
             Ok(g) => g,
@@ -207,14 +215,16 @@ impl Prop for EngineSpeed {
             "speed {}: generator has {} frames, expected max(round({}/{}), {}) = {}",
             c.speed, frames, f1, c.speed, nstates, e_lo
         );
-        if frames <= 400 {
+        if frames * engine.condition.get_fperiod() <= 100_000 {
             let w = g.generate_all();
             ensure!(w.len() == frames * engine.condition.get_fperiod(), "engine-length", "waveform {} samples != {} frames x {}", w.len(), frames, engine.condition.get_fperiod());
         }
         let mut rep = Report::new();
         rep.nontrivial = c.speed != 1.0;
-        rep.class(format!("source:{}", c.source));
+        rep.class(c.voice.class());
         rep.class_if(frames == nstates, "floor-all-ones");
+        rep.class_if((c.speed - 1.0).abs() < 1e-2 && c.speed != 1.0, "speed-near-1");
+        rep.class_if((c.speed - 1.0).abs() < 1e-2 && c.speed != 1.0 && (f1 / c.speed).round() != f1, "speed-near-1-and-total-differs");
         Ok(rep)
     }
 }
